@@ -153,6 +153,76 @@ func dupProbe(runs int) (map[string]int, error) {
 	return seen, nil
 }
 
+// networks: "host/slice/address=network|locality" of every cached endpoint plus the published shard endpoints.
+func (w *world) networks() []string {
+	var out []string
+	for h, m := range w.c.VerifSliceCache() {
+		for s, eps := range m {
+			for _, e := range eps {
+				out = append(out, fmt.Sprintf("cache %s/%s/%s=%q|%q", h, s, e.FirstAddressOrNil(), e.Network, e.Locality.Label))
+			}
+		}
+	}
+	for h, byNs := range w.index.Shardz() {
+		for _, sh := range byNs {
+			for _, eps := range sh.Shards {
+				for _, e := range eps {
+					out = append(out, fmt.Sprintf("shard %s/%s=%q|%q", h, e.FirstAddressOrNil(), e.Network, e.Locality.Label))
+				}
+			}
+		}
+	}
+	sort.Strings(out)
+	return out
+}
+
+const sysNS = "istio-system"
+
+// sysNamespaceProbe: the system namespace (label topology.istio.io/network=net1) is added at position pos among the
+// writes Service, Pod, slice (pos 0 = first = cold-start order, 3 = last); ahead = all writes reach the informers
+// before any handler runs. Returns the endpoint networks after draining.
+func sysNamespaceProbe(pos int, ahead bool) ([]string, error) {
+	w := newWorldSys(sysNS)
+	defer w.close()
+	objs := []Op{wsv(0, SvcV{Ports: []int{0}}), wp(0, ready(1, 0, 1)), wsl(0, SliceV{Svc: 0, NPorts: 1, Eps: []EpV{{IP: 1, Ref: 0}}})}
+	for i := 0; i <= len(objs); i++ {
+		if i == pos {
+			n := &corev1.Namespace{ObjectMeta: metav1.ObjectMeta{Name: sysNS, Labels: map[string]string{"topology.istio.io/network": "net1"}}}
+			if _, err := w.client.Kube().CoreV1().Namespaces().Create(context.Background(), n, metav1.CreateOptions{}); err != nil {
+				return nil, err
+			}
+			w.pushed += 2 // two namespace handlers are registered when SystemNamespace is set
+			if err := w.q.waitTotal(w.pushed); err != nil {
+				return nil, err
+			}
+			if !ahead {
+				w.drainAll()
+			}
+		}
+		if i == len(objs) {
+			break
+		}
+		o := objs[i]
+		var obj any
+		switch {
+		case o.Pod != nil:
+			obj = mkPod(o.ID, *o.Pod)
+		case o.Slice != nil:
+			obj = mkSlice(o.ID, *o.Slice)
+		default:
+			obj = mkSvc(o.ID, *o.Svc)
+		}
+		if _, err := w.write(o.Kind, o.ID, obj); err != nil {
+			return nil, err
+		}
+		if !ahead {
+			w.drainAll()
+		}
+	}
+	w.drainAll()
+	return w.networks(), nil
+}
+
 const extraBase = 9000
 
 func runExtras(c *vlib.Collector) error {
@@ -186,6 +256,33 @@ func runExtras(c *vlib.Collector) error {
 			c.Violate(vlib.Violation{ID: extraBase + 2, Kind: "oracle", Finding: findNamespace,
 				Detail: fmt.Sprintf("Services() with the Namespace add handled after the Service: %v; cold start (Namespace first): %v", late, cold),
 				Case:   "Service s0; handle; Namespace ns1 annotated networking.istio.io/traffic-distribution=PreferClose; handle"})
+		}
+	}
+	// system namespace with a network label, added at every position of the event order: HEAD refreshes pods and
+	// endpoints on the ADD (onNetworkChange), so every order must end with the cold-start networks. Not a known finding.
+	coldNet, err := sysNamespaceProbe(0, false)
+	if err != nil {
+		return err
+	}
+	c.Extra["system_namespace_cold_start_networks"] = coldNet
+	for pos := 0; pos <= 3; pos++ {
+		for ai, ahead := range []bool{false, true} {
+			id := extraBase + 10 + 2*pos + ai
+			if !c.Wanted(id) {
+				continue
+			}
+			got, err := sysNamespaceProbe(pos, ahead)
+			if err != nil {
+				return err
+			}
+			c.Tag("extra:system-namespace-network")
+			c.Hyp("system-namespace-add-order", 1)
+			if len(coldNet) == 0 || fmt.Sprint(got) != fmt.Sprint(coldNet) {
+				c.Violate(vlib.Violation{ID: id, Kind: "oracle",
+					Detail: fmt.Sprintf("endpoint network/locality with the system namespace ADD at position %d (stores ahead: %v): %v; cold start (namespace first): %v", pos, ahead, got, coldNet),
+					Case: fmt.Sprintf("SystemNamespace=istio-system; writes Service s0, Pod p0 (10.0.0.1, ready), slice e0 {10.0.0.1 -> p0} with Namespace istio-system (topology.istio.io/network=net1) inserted at position %d; handlers %s",
+						pos, map[bool]string{false: "run after every write", true: "run after all writes"}[ahead])})
+			}
 		}
 	}
 	if c.Wanted(extraBase + 3) {
